@@ -269,7 +269,8 @@ prop("C11", "Steady-state decoding performs no heap allocation", [
     ("smaller_runs_allocate_nothing", "dominated_run_no_alloc", "any run whose demands are dominated allocates nothing either"),
     ("capacities_cover_what_was_served", "caps_after_covers", "after a run the capacities cover every demand of that run"),
     ("growing_demand_is_the_hazard", "growing_demand_allocates", "a demand that grows from run to run (a length Reset forgets to truncate) allocates: what the capacity snapshots look for"),
-], imports=CONC_IMPORTS)
+    ("repetitions_make_the_same_demands", "repetitions_make_the_same_demands", "the link to the interpreter: two repetitions Reset - bind - Decode of one program over the same objects demand the same number of literal slots and the same counter cells and return the same result, whatever the context went through before (from the scratch-irrelevance induction of C14)"),
+], imports=CONC_IMPORTS + "From Dec Require Import Strconv Crc Values Tree Interp.\nFrom Dec.proofs Require Import InterpFacts InterpFacts2 InterpFacts3 FollowCore.\n")
 
 prop("C13", "Registering and decoding concurrently is race-free and linearizable", [
     ("lock_discipline_of_db_go", "lock_discipline_holds", "the lock structure regenerated from db.go: every access to idxID / idxKey / idxHash / buf lies in a lock region, writes under the write lock, no locking method called while the lock is held, every path releases the lock"),
